@@ -1461,6 +1461,15 @@ handle_null_request(int tun_fd, int dns_fd, struct dnsfd *dns_fds, struct query 
 			users[userid].inpacket.fragment = up_frag;
 			users[userid].inpacket.len = 0;
 			users[userid].inpacket.offset = 0;
+		} else if (users[userid].inpacket.len == 0) {
+			/* seq is same, frag is higher, but we hold nothing it
+			   could continue: seqnos have wrapped and this is
+			   another packet whose start we missed */
+			if (debug >= 1) {
+				fprintf(stderr, "IN   pkt seq# %d, frag %d, dropped: start of packet missing\n",
+					up_seq, up_frag);
+			}
+			upstream_ok = 0;
 		} else {
 			/* seq is same, frag is higher; don't care about
 			   missing fragments, TCP checksum will fail */
